@@ -43,95 +43,7 @@ def check(R):
     F = R.facts
     # ---- a --------------------------------------------------------------------
     with R.clause('a'):
-        ac = R.body(CV + '::add_cert')
-        nxt = [i for i, j, s in ac.aggregates(CV)]
-        R.floor('construction of the next CertVerifier', len(nxt), 1)
-        R.cut('P2', ac, 'step to the parent certificate (construct the next verifier)', nxt, 'is_authority(parent) == true', lambda: R.call_guard(ac, 'cert::CertRef::is_authority', inner=1))
-        R.cut('P2', ac, 'step to the parent certificate (construct the next verifier)', nxt, 'signature verifies', lambda: R.call_guard(ac, 'crypto::PublicKey::verify', inner=1))
-        R.cut('P2', ac, 'step to the parent certificate (construct the next verifier)', nxt, 'verify_usage ok', lambda: R.call_guard(ac, CV + '::verify_usage'))
-
-        def notafter():
-            e = set()
-            for bb, te, fe in prims.cmp_guard_edges(ac, 'Gt', lambda s: 'cert::CertRef::not_after' in src_calls(s), lambda s: 0 in src_consts(s), symmetric=False):
-                e |= fe
-            for bb, te, fe in prims.cmp_guard_edges(ac, 'Gt', lambda s: any(c.endswith('::any_secs') for c in src_calls(s)), lambda s: 'cert::CertRef::not_after' in src_calls(s), symmetric=False):
-                e |= fe
-            return e
-        R.cut('P2', ac, 'step to the parent certificate (construct the next verifier)', nxt, 'not expired (not_after == 0 or now <= not_after)', notafter)
-
-        def notbefore():
-            e = set()
-            for t in ac.calls():
-                if t.d.get('f', '').endswith('::reliable_secs'):
-                    e |= prims.track_result(F, ac, t).failure
-            for bb, te, fe in prims.cmp_guard_edges(ac, 'Lt', lambda s: any(c.endswith('::reliable_secs') for c in src_calls(s)) or True, lambda s: 'cert::CertRef::not_before' in src_calls(s), symmetric=False):
-                e |= fe
-            return e
-        R.cut('P2', ac, 'step to the parent certificate (construct the next verifier)', nxt, 'already valid (no reliable time, or now >= not_before)', notbefore)
-        R.expect('P9', ac.fn, 'both validity bounds are read', 'cert::CertRef::not_before' in ac.calls_summary and 'cert::CertRef::not_after' in ac.calls_summary, 'not_before(), not_after()', 'a bound is not read')
-        ver = ac.calls('crypto::PublicKey::verify')
-        R.floor('verify in add_cert', len(ver), 1)
-        ks = prims.sources(ac, ver[0].d['a'][0], through={'crypto::Crypto::pub_key', 'cert::CertRef::pubkey'})
-        ms = prims.sources(ac, ver[0].d['a'][1])
-        ss = prims.sources(ac, ver[0].d['a'][2], through={'cert::CertRef::signature'})
-        R.expect('P10', ac.fn, 'the signature is checked with the parent\'s public key', 'cert::CertRef::pubkey' in src_calls(ks) and ('arg', 2) in ks, 'parent.pubkey()', f'{sorted(map(str, ks))[:5]}')
-        R.expect('P10', ac.fn, 'the signed data is this certificate\'s own ASN.1 encoding', 'cert::CertRef::as_asn1' in src_calls(ms) or any(c.endswith('Index::index') for c in src_calls(ms)), 'self.cert.as_asn1(buf)', f'{sorted(map(str, ms))[:5]}')
-        R.expect('P10', ac.fn, 'the signature checked is this certificate\'s own', 'cert::CertRef::signature' in src_calls(ss), 'self.cert.signature()', f'{sorted(map(str, ss))[:5]}')
-        # depth
-        for i, j, s in ac.aggregates(CV):
-            fields = dict(zip(s[1].get('fields', ()), s[1]['a']))
-            dp = fields.get('depth')
-            okd = False
-            if dp is not None:
-                p = op_place(dp)
-                if p and len(p) == 1:
-                    ds = [d for d in ac.defs.get(p[0], ()) if not ac.is_cleanup(d[0])]
-                    okd = len(ds) == 1 and ds[0][2] == 'call' and ds[0][3].get('f', '').endswith('::saturating_add') and ds[0][3]['a'][1].get('k', {}).get('v') == 1 \
-                        and mentions(prims.sources(ac, ds[0][3]['a'][0]), 'depth')
-            R.expect('P10', ac.fn, 'the next verifier\'s depth is self.depth + 1 on every path', okd, 'depth: self.depth.saturating_add(1)',
-                     'the depth handed to the next step is not unconditionally self.depth + 1: position-dependent rules (a NOC only as leaf, path length) can be bypassed', ac.where(i, j))
-            pc = fields.get('cert')
-            R.expect('P10', ac.fn, 'the next verifier is positioned at the parent', pc is not None and ('arg', 2) in prims.sources(ac, pc), 'cert: parent', 'not the parent', ac.where(i, j))
-        vu = R.body(CV + '::verify_usage')
-        oks = ok_return_bbs(vu)
-        R.floor('Ok return of verify_usage', len(oks), 1)
-        R.cut('P2', vu, 'accept the usage policy', oks, 'no unknown critical extension', lambda: _fail(R, vu, 'cert::CertRef::has_critical_future_extension', inner=1))
-        ct = named_local(vu, 'cert_type')
-        noc_edges, _ = prims.enum_local_edges(F, vu, lambda pl: pl[0] in ct and len(pl) == 1, 'cert::MatterCertType', ['Noc'])
-        ca_edges, _ = prims.enum_local_edges(F, vu, lambda pl: pl[0] in ct and len(pl) == 1, 'cert::MatterCertType', ['Icac', 'Rcac'])
-        R.expect('P2', vu.fn, 'the policy distinguishes leaf and authority certificates', bool(noc_edges) and bool(ca_edges), f'{sorted(noc_edges)} / {sorted(ca_edges)}', 'no match on cert_type')
-        isca = named_local(vu, 'is_ca')
-        ca_t, ca_f = set(), set()
-        for l in isca:
-            t, f = prims.bool_local_edges(vu, l)
-            ca_t |= t
-            ca_f |= f
-        for (frm, to) in sorted(noc_edges):
-            R.cut_from('P2', vu, to, 'accept a NOC', oks, 'it is the chain leaf (depth == 0)',
-                       lambda: _cmp(vu, 'Ne', lambda s: mentions(s, 'depth'), lambda s: 0 in src_consts(s), 'f') | _cmp(vu, 'Eq', lambda s: mentions(s, 'depth'), lambda s: 0 in src_consts(s), 't'))
-            R.cut_from('P2', vu, to, 'accept a NOC', oks, 'cA == false', ca_f)
-            R.cut_from('P2', vu, to, 'accept a NOC', oks, 'KeyUsage has digitalSignature', lambda: _bit_edges(F, vu, 'DIGITAL_SIGNATURE'))
-            R.cut_from('P2', vu, to, 'accept a NOC', oks, 'ExtendedKeyUsage has serverAuth and clientAuth', lambda: R.call_guard(vu, 'cert::CertRef::ext_key_usage_has_all', inner=1))
-        for (frm, to) in sorted(ca_edges):
-            R.cut_from('P2', vu, to, 'accept an ICAC / RCAC', oks, 'cA == true', ca_t)
-            R.cut_from('P2', vu, to, 'accept an ICAC / RCAC', oks, 'KeyUsage has keyCertSign', lambda: _bit_edges(F, vu, 'KEY_CERT_SIGN'))
-        # the comparison of the chain position (self.depth, minus the leaf) with the certificate's pathLenConstraint (payload of
-        # basic_constraints()); both travel through one tuple pattern, so the sides are told apart by shape: `<..> - 1` on the left
-        import p7
-        both = lambda s_: any(f == 'depth:' + CV for f in src_fields(s_)) or 'cert::CertRef::basic_constraints' in src_calls(s_)
-        pl_cmp = [c for c in prims.compare_sites(vu, ops=('Gt', 'Lt', 'Ge', 'Le'))
-                  if both(prims.sources(vu, c[3])) and both(prims.sources(vu, c[4])) and 'basic_constraints' in ' '.join(src_calls(prims.sources(vu, c[3]) | prims.sources(vu, c[4])))
-                  and (p7.expr_key(vu, c[3]).startswith('Sub(') or p7.expr_key(vu, c[4]).startswith('Sub('))]
-        okpl = len(pl_cmp) == 1 and pl_cmp[0][2] == 'Gt' and p7.expr_key(vu, pl_cmp[0][3]).startswith('Sub(') and p7.expr_key(vu, pl_cmp[0][3]).rstrip('.0').endswith(',1)')
-        R.expect('P10', vu.fn, 'path length: refuse when depth - 1 > pathLenConstraint', okpl, 'depth - 1 > max_intermediates', f'{[c[2] for c in pl_cmp]}')
-        if pl_cmp:
-            te, fe = prims.bool_local_edges(vu, pl_cmp[0][5])
-            for (frm, to) in sorted(ca_edges):
-                r = prims.reach(vu, (to,), cut_edges=fe)
-                R.expect('P2', vu.fn, 'exceeding the path length never reaches Ok', not (set(oks) & prims.reach(vu, [e[1] for e in te])) , 'true edge -> Err', 'the exceeded-path-length edge reaches Ok')
-        R.expect('P6', KU, 'key-usage bit constants are distinct single bits', len({F.const_val(KU + n) for n in ('DIGITAL_SIGNATURE', 'KEY_CERT_SIGN')}) == 2, 'ok', 'same value')
-        result_used(R, 'P8', ac, ('cert::CertRef::is_authority',))
-        result_used(R, 'P8', ac, ('crypto::PublicKey::verify',))
+        chain_step_rules(R)
 
     # ---- b --------------------------------------------------------------------
     with R.clause('b'):
@@ -223,6 +135,99 @@ def check(R):
             for (frm, to) in sorted(tr.success):
                 R.cut_from('P2', b, to, 'move on to the next required purpose', [nx[0].bb], 'the current purpose matched an entry of the list (==)', eqt)
 
+
+def chain_step_rules(R):
+    """every chain step (CertVerifier::add_cert / verify_usage) checks authority link, signature, validity window, usage policy and path length"""
+    F = R.facts
+    ac = R.body(CV + '::add_cert')
+    nxt = [i for i, j, s in ac.aggregates(CV)]
+    R.floor('construction of the next CertVerifier', len(nxt), 1)
+    R.cut('P2', ac, 'step to the parent certificate (construct the next verifier)', nxt, 'is_authority(parent) == true', lambda: R.call_guard(ac, 'cert::CertRef::is_authority', inner=1))
+    R.cut('P2', ac, 'step to the parent certificate (construct the next verifier)', nxt, 'signature verifies', lambda: R.call_guard(ac, 'crypto::PublicKey::verify', inner=1))
+    R.cut('P2', ac, 'step to the parent certificate (construct the next verifier)', nxt, 'verify_usage ok', lambda: R.call_guard(ac, CV + '::verify_usage'))
+
+    def notafter():
+        e = set()
+        for bb, te, fe in prims.cmp_guard_edges(ac, 'Gt', lambda s: 'cert::CertRef::not_after' in src_calls(s), lambda s: 0 in src_consts(s), symmetric=False):
+            e |= fe
+        for bb, te, fe in prims.cmp_guard_edges(ac, 'Gt', lambda s: any(c.endswith('::any_secs') for c in src_calls(s)), lambda s: 'cert::CertRef::not_after' in src_calls(s), symmetric=False):
+            e |= fe
+        return e
+    R.cut('P2', ac, 'step to the parent certificate (construct the next verifier)', nxt, 'not expired (not_after == 0 or now <= not_after)', notafter)
+
+    def notbefore():
+        e = set()
+        for t in ac.calls():
+            if t.d.get('f', '').endswith('::reliable_secs'):
+                e |= prims.track_result(F, ac, t).failure
+        for bb, te, fe in prims.cmp_guard_edges(ac, 'Lt', lambda s: any(c.endswith('::reliable_secs') for c in src_calls(s)) or True, lambda s: 'cert::CertRef::not_before' in src_calls(s), symmetric=False):
+            e |= fe
+        return e
+    R.cut('P2', ac, 'step to the parent certificate (construct the next verifier)', nxt, 'already valid (no reliable time, or now >= not_before)', notbefore)
+    R.expect('P9', ac.fn, 'both validity bounds are read', 'cert::CertRef::not_before' in ac.calls_summary and 'cert::CertRef::not_after' in ac.calls_summary, 'not_before(), not_after()', 'a bound is not read')
+    ver = ac.calls('crypto::PublicKey::verify')
+    R.floor('verify in add_cert', len(ver), 1)
+    ks = prims.sources(ac, ver[0].d['a'][0], through={'crypto::Crypto::pub_key', 'cert::CertRef::pubkey'})
+    ms = prims.sources(ac, ver[0].d['a'][1])
+    ss = prims.sources(ac, ver[0].d['a'][2], through={'cert::CertRef::signature'})
+    R.expect('P10', ac.fn, 'the signature is checked with the parent\'s public key', 'cert::CertRef::pubkey' in src_calls(ks) and ('arg', 2) in ks, 'parent.pubkey()', f'{sorted(map(str, ks))[:5]}')
+    R.expect('P10', ac.fn, 'the signed data is this certificate\'s own ASN.1 encoding', 'cert::CertRef::as_asn1' in src_calls(ms) or any(c.endswith('Index::index') for c in src_calls(ms)), 'self.cert.as_asn1(buf)', f'{sorted(map(str, ms))[:5]}')
+    R.expect('P10', ac.fn, 'the signature checked is this certificate\'s own', 'cert::CertRef::signature' in src_calls(ss), 'self.cert.signature()', f'{sorted(map(str, ss))[:5]}')
+    # depth
+    for i, j, s in ac.aggregates(CV):
+        fields = dict(zip(s[1].get('fields', ()), s[1]['a']))
+        dp = fields.get('depth')
+        okd = False
+        if dp is not None:
+            p = op_place(dp)
+            if p and len(p) == 1:
+                ds = [d for d in ac.defs.get(p[0], ()) if not ac.is_cleanup(d[0])]
+                okd = len(ds) == 1 and ds[0][2] == 'call' and ds[0][3].get('f', '').endswith('::saturating_add') and ds[0][3]['a'][1].get('k', {}).get('v') == 1 \
+                    and mentions(prims.sources(ac, ds[0][3]['a'][0]), 'depth')
+        R.expect('P10', ac.fn, 'the next verifier\'s depth is self.depth + 1 on every path', okd, 'depth: self.depth.saturating_add(1)',
+                 'the depth handed to the next step is not unconditionally self.depth + 1: position-dependent rules (a NOC only as leaf, path length) can be bypassed', ac.where(i, j))
+        pc = fields.get('cert')
+        R.expect('P10', ac.fn, 'the next verifier is positioned at the parent', pc is not None and ('arg', 2) in prims.sources(ac, pc), 'cert: parent', 'not the parent', ac.where(i, j))
+    vu = R.body(CV + '::verify_usage')
+    oks = ok_return_bbs(vu)
+    R.floor('Ok return of verify_usage', len(oks), 1)
+    R.cut('P2', vu, 'accept the usage policy', oks, 'no unknown critical extension', lambda: _fail(R, vu, 'cert::CertRef::has_critical_future_extension', inner=1))
+    ct = named_local(vu, 'cert_type')
+    noc_edges, _ = prims.enum_local_edges(F, vu, lambda pl: pl[0] in ct and len(pl) == 1, 'cert::MatterCertType', ['Noc'])
+    ca_edges, _ = prims.enum_local_edges(F, vu, lambda pl: pl[0] in ct and len(pl) == 1, 'cert::MatterCertType', ['Icac', 'Rcac'])
+    R.expect('P2', vu.fn, 'the policy distinguishes leaf and authority certificates', bool(noc_edges) and bool(ca_edges), f'{sorted(noc_edges)} / {sorted(ca_edges)}', 'no match on cert_type')
+    isca = named_local(vu, 'is_ca')
+    ca_t, ca_f = set(), set()
+    for l in isca:
+        t, f = prims.bool_local_edges(vu, l)
+        ca_t |= t
+        ca_f |= f
+    for (frm, to) in sorted(noc_edges):
+        R.cut_from('P2', vu, to, 'accept a NOC', oks, 'it is the chain leaf (depth == 0)',
+                   lambda: _cmp(vu, 'Ne', lambda s: mentions(s, 'depth'), lambda s: 0 in src_consts(s), 'f') | _cmp(vu, 'Eq', lambda s: mentions(s, 'depth'), lambda s: 0 in src_consts(s), 't'))
+        R.cut_from('P2', vu, to, 'accept a NOC', oks, 'cA == false', ca_f)
+        R.cut_from('P2', vu, to, 'accept a NOC', oks, 'KeyUsage has digitalSignature', lambda: _bit_edges(F, vu, 'DIGITAL_SIGNATURE'))
+        R.cut_from('P2', vu, to, 'accept a NOC', oks, 'ExtendedKeyUsage has serverAuth and clientAuth', lambda: R.call_guard(vu, 'cert::CertRef::ext_key_usage_has_all', inner=1))
+    for (frm, to) in sorted(ca_edges):
+        R.cut_from('P2', vu, to, 'accept an ICAC / RCAC', oks, 'cA == true', ca_t)
+        R.cut_from('P2', vu, to, 'accept an ICAC / RCAC', oks, 'KeyUsage has keyCertSign', lambda: _bit_edges(F, vu, 'KEY_CERT_SIGN'))
+    # the comparison of the chain position (self.depth, minus the leaf) with the certificate's pathLenConstraint (payload of
+    # basic_constraints()); both travel through one tuple pattern, so the sides are told apart by shape: `<..> - 1` on the left
+    import p7
+    both = lambda s_: any(f == 'depth:' + CV for f in src_fields(s_)) or 'cert::CertRef::basic_constraints' in src_calls(s_)
+    pl_cmp = [c for c in prims.compare_sites(vu, ops=('Gt', 'Lt', 'Ge', 'Le'))
+              if both(prims.sources(vu, c[3])) and both(prims.sources(vu, c[4])) and 'basic_constraints' in ' '.join(src_calls(prims.sources(vu, c[3]) | prims.sources(vu, c[4])))
+              and (p7.expr_key(vu, c[3]).startswith('Sub(') or p7.expr_key(vu, c[4]).startswith('Sub('))]
+    okpl = len(pl_cmp) == 1 and pl_cmp[0][2] == 'Gt' and p7.expr_key(vu, pl_cmp[0][3]).startswith('Sub(') and p7.expr_key(vu, pl_cmp[0][3]).rstrip('.0').endswith(',1)')
+    R.expect('P10', vu.fn, 'path length: refuse when depth - 1 > pathLenConstraint', okpl, 'depth - 1 > max_intermediates', f'{[c[2] for c in pl_cmp]}')
+    if pl_cmp:
+        te, fe = prims.bool_local_edges(vu, pl_cmp[0][5])
+        for (frm, to) in sorted(ca_edges):
+            r = prims.reach(vu, (to,), cut_edges=fe)
+            R.expect('P2', vu.fn, 'exceeding the path length never reaches Ok', not (set(oks) & prims.reach(vu, [e[1] for e in te])) , 'true edge -> Err', 'the exceeded-path-length edge reaches Ok')
+    R.expect('P6', KU, 'key-usage bit constants are distinct single bits', len({F.const_val(KU + n) for n in ('DIGITAL_SIGNATURE', 'KEY_CERT_SIGN')}) == 2, 'ok', 'same value')
+    result_used(R, 'P8', ac, ('cert::CertRef::is_authority',))
+    result_used(R, 'P8', ac, ('crypto::PublicKey::verify',))
 
 def dup_fabric_rule(R):
     """AddNOC refuses a fabric that exists already: some equality test on (fabric id) and one on the ROOT PUBLIC KEYS - the staged root's
